@@ -71,7 +71,7 @@ Definition wf_pt (c : cfg) (o : op) (p : pt) : bool :=
   | OReserve _ _, PLock => reserve_locks c
   | _, PLock => true
   | OReserve _ _, (PRead | PUnlockR) => reserve_locks c
-  | OReserve _ _, PAvail => true
+  | OReserve _ _, (PAvail | PDeref) => true
   | OReserve _ _, PReadNL => negb (reserve_locks c)
   | OCredit _ _, (PCRead | PCWrite | PCPut | PCCheck | PCSend | PExit) => true
   | ODebit _ _, (PDTransfer | PDPut | PExit) => true
